@@ -16,6 +16,8 @@ uint8_t* _Znwm(uint64_t n){ uint8_t* p = malloc(n ? n : 1);
 #endif
   verif_live_blocks++; return p; }
 uint8_t* _Znam(uint64_t n){ return _Znwm(n); }
+uint8_t* _ZnwmRKSt9nothrow_t(uint64_t n, uint8_t* tag){ return _Znwm(n); }
+uint8_t* _ZnamRKSt9nothrow_t(uint64_t n, uint8_t* tag){ return _Znwm(n); }
 void _ZdlPv(uint8_t* p){ if (p) { verif_live_blocks--; free(p);} }
 void _ZdaPv(uint8_t* p){ _ZdlPv(p); }
 void _ZdlPvm(uint8_t* p, uint64_t n){ _ZdlPv(p); }
